@@ -251,8 +251,10 @@ def explore_shard(acc, shard):
             scripts = [()] + [(e,) for e in MU.EDITS] + ([tuple(s) for n in range(2, maxlen + 1) for s in itertools.product(MU.EDITS, repeat=n)])
             scripts += [("title_unencodable",), ("append_chart", "title_unencodable"), ("title_unencodable", "set_new")]
             for ext in (".sm", ".ssc"):
-                for with_chart in (False, True):
-                    data = MU.file_bytes(ext, payload, with_chart, key_only=with_chart)
+                for with_chart, variant in ((False, None), (True, None), (False, "unterminated"), (True, "crlf")):
+                    if variant == "crlf" and fsname != "mem":
+                        continue  # native text mode translates CRLF on reading; MemoryFS keeps it inside values
+                    data = MU.file_bytes(ext, payload, with_chart, key_only=with_chart, variant=variant)
                     for output in (False, True):
                         for backup in ("none", "other", "input", "output"):
                             if backup == "output" and not output:
